@@ -20,3 +20,10 @@ pub assume_specification<'a, P: core::str::pattern::Pattern>[ str::trim_start_ma
 
 pub assume_specification[ char::to_digit ](c: char, radix: u32) -> (r: Option<u32>)
     ensures radix == 10 ==> r == (if is_dec(c) { Some(dval(c) as u32) } else { None::<u32> });
+
+/// `str::len` (byte length): for ASCII-only strings the number of bytes is the number of characters (A-std).
+/// Calls are redirected here by rule R14 because vstd's own specification of `str::len` says nothing about the result.
+#[verifier::external_body]
+pub fn str_len(s: &str) -> (r: usize)
+    ensures (forall|i: int| 0 <= i < s@.len() ==> (#[trigger] s@[i] as u32) < 128) ==> r == s@.len()
+{ s.len() }
